@@ -55,8 +55,23 @@ CHECKS = {
              "{x*N outside the promoted type or x*N/D outside T} computed with exact integers; is_conversion_lossy is "
              "the disjunction; and every flagged exact input really leaves a range in the conversion IR (so no "
              "exact, computable conversion is reported lossy).  This is the all-values statement per instance, by "
-             "monotone end-point reasoning rather than by a solver.",
+             "monotone end-point reasoning rather than by a solver.  Floating reps (float, double x integer, rational and pi factors): on an "
+             "exact partition of ALL finite values (intervals of ordinals) an unflagged value never scales to infinity and a flagged value is "
+             "never more than 2^-20 (relative) below the largest finite value; truncation is never reported.",
         design_ref="3.4", technique="exact cell extraction of checker predicates from LLVM IR compared with closed-form sets",
+        note=TRUST_I, engine="I"),
+    "C05": dict(
+        category="proof",
+        text="Per (source rep, target rep, factor) over all ordered pairs of the 10 standard reps x integer / reciprocal / rational / pi factors: "
+             "integral sources - exact integer cell partition of the whole source range: is_conversion_lossy<T> false => every arithmetic and "
+             "cast instruction of coerce_in<T> / as<T> (dead ones included) is defined and in range and the result is exactly x*N/D; overflow "
+             "flagged => x, x*N or x*N/D really leaves the common, promoted or target range (closed form); lossy == overflow || truncate; "
+             "rep_cast == coerce_in in the same unit.  Floating sources - exact partition of ALL finite values of the source type (intervals of "
+             "ordinals x integrality class of the scaled value) plus NaN, +inf, -inf, with IEEE rounding modelled on exact rationals: not lossy => "
+             "the float-to-int cast operand is castable / the narrowing float cast finite; NaN and infinities are lossy for integral targets; the "
+             "converted value is the cast of the very value the checkers examined, which is one correctly rounded scaling by the model factor.  "
+             "Integral -> floating: structure and constant only (documented convention).  long double is not analysed at IR level.",
+        design_ref="3.5", technique="abstract interpretation of LLVM IR over integer cells and floating-point ordinal cells with an exact-rational IEEE rounding model",
         note=TRUST_I, engine="I"),
     "C06": dict(
         category="exploration",
